@@ -83,9 +83,9 @@ impl PatchHeader {
         }
     }
 
-    /// The `Reviewed-By` field.
+    /// The `Reviewed-by` field.
     pub fn reviewed_by(&self) -> Vec<String> {
-        self.0.get_all("Reviewed-By").collect()
+        self.0.get_all("Reviewed-by").collect()
     }
 
     /// Get the last update date of the patch.
